@@ -46,7 +46,7 @@ def plan(tier):
 
 def required_regimes(tier):
     return {'l1:odd_rows', 'l1:odd_cols', 'l2+:pad_both', 'l2+:pad_rows_only', 'l2+:pad_cols_only', 'l2+:pad_none', 'layout:nondefault',
-            'skip:some', 'include:some', 'subset:lowpass_only', 'subset:highs_only', 'subset:finest_only', 'channels:2'}
+            'skip:some', 'include:some', 'subset:lowpass_only', 'subset:highs_only', 'subset:finest_only', 'channels:2', 'masks:list', 'masks:tuple', 'masks:ndarray'}
 
 
 def run(item):
@@ -76,7 +76,11 @@ def run(item):
                 tags.append('skip:some')
             if any(inc):
                 tags.append('include:some')
-            fwd = DTCWTForward(biort=b, qshift=q, J=J, o_dim=o, ri_dim=r, skip_hps=list(skip), include_scale=list(inc))
+            ci = (len(res['states']) + J) % 3
+            cont = [list, tuple, lambda v: np.array(v, dtype=bool)][ci]
+            cfg['mask_container'] = ['list', 'tuple', 'ndarray'][ci]
+            tags.append('masks:' + cfg['mask_container'])
+            fwd = DTCWTForward(biort=b, qshift=q, J=J, o_dim=o, ri_dim=r, skip_hps=cont(skip), include_scale=cont(inc))
 
             npos = [d for d in range(6) if d != o % 6 and d != r % 6][0]     # where the batch axis of a subband sits
 
